@@ -652,6 +652,12 @@ func ruleMergeQueued(r *Report) {
 						ok = true
 					}
 				}
+				// … or queues it itself: Buffer.Put<K>(commit.Merge, cursor, delta)
+				if isBufferPut(calleeShort(cc)) && len(cc.Args) >= 4 {
+					if k, isC := constInt(cc.Args[1]); isC && k == opMerge && len(fn.Params) > 2 && sameExpr(cc.Args[3], fn.Params[2]) {
+						ok = true
+					}
+				}
 			}
 		})
 		h.Check(ok, fnName(fn), r.P.Pos(fn.Pos()), "delegates to the accessor's Merge", "Row.Merge* does not hand the delta to the accessor's Merge")
